@@ -895,6 +895,14 @@ fn fi_typed<T: FiBytes>(ctx: &mut Ctx, rng: &mut Rng) {
                 if d.lg_max_map_size() != sk.lg_max_map_size() || d.maximum_map_capacity() != sk.maximum_map_capacity() {
                     problems.push("map size differs".into());
                 }
+                // the current table size is part of the image (preamble byte 4) and of the public state
+                if d.lg_cur_map_size() != sk.lg_cur_map_size() || d.current_map_capacity() != sk.current_map_capacity() {
+                    problems.push(format!("current map size differs: lg {} vs {}, capacity {} vs {}", d.lg_cur_map_size(), sk.lg_cur_map_size(), d.current_map_capacity(), sk.current_map_capacity()));
+                }
+                let again = d.serialize();
+                if again.len() != bytes.len() || again[..again.len().min(8)] != bytes[..bytes.len().min(8)] {
+                    problems.push(format!("re-serialized preamble differs: {} vs {}", hex(&again[..again.len().min(8)]), hex(&bytes[..bytes.len().min(8)])));
+                }
                 for it in &items {
                     if d.estimate(it) != sk.estimate(it) || d.lower_bound(it) != sk.lower_bound(it) || d.upper_bound(it) != sk.upper_bound(it) {
                         problems.push(format!("point queries differ for {:?}", it));
